@@ -354,9 +354,8 @@ def run_fuzz_leg(work, pid, leg, tier, seed):
               "VERIF_FAIL": os.path.join(sd, "fail.json"), "VERIF_SRC": work.src,
               "VERIF_TESTDATA": os.path.join(VERIF, "harness"), "VERIF_FUZZING": "1"})
     e.update(leg.env)
-    cachedir = os.path.join(sd, "fuzzcache")
     cmd = ["go", "test", "-trimpath", "-run", "^$", "-fuzz", "^" + leg.fuzz + "$", "-fuzztime", "%ds" % leg.fuzztime,
-           "-test.fuzzcachedir", cachedir, "-parallel", str(NCPU), "./" + leg.pkg]
+           "-parallel", str(NCPU), "./" + leg.pkg]
     p = subprocess.run(cmd, cwd=work.h, env=e, stdout=subprocess.PIPE, stderr=subprocess.STDOUT, text=True,
                        timeout=leg.fuzztime + 600)
     out = p.stdout
